@@ -110,24 +110,135 @@ struct Rep {
     set: Bits,
 }
 
-fn make_rep(model: &mut Model, d: &Bits, rng: &mut Rng, many_segments: bool, obs: &mut Obs) -> Option<Rep> {
+fn make_rep(model: &mut Model, d: &Bits, rng: &mut Rng, many_segments: bool, few_segments: bool, obs: &mut Obs) -> Option<Rep> {
+    make_rep_with(model, d, rng, many_segments, few_segments, None, obs)
+}
+
+fn make_rep_with(model: &mut Model, d: &Bits, rng: &mut Rng, many_segments: bool, few_segments: bool, explicit: Option<Vec<Step>>, obs: &mut Obs) -> Option<Rep> {
     let init = model.node(0).id;
     let mut rep = MemReplica::new_mem(&init);
-    let hcfg = HistCfg {
+    let hcfg = if few_segments {
+        // everything in as few segments as the graph allows: the requester's sample (one address
+        // per segment) is then tiny, and long segments continue past branch points
+        HistCfg { order: *rng.pick(&[Order::Creation, Order::DepthFirst]), max_batch: 1000, p_flush: 0, p_commit: 0, p_dup: 0 }
+    } else {
+        HistCfg {
         order: *rng.pick(&[Order::Creation, Order::RandomTopo, Order::DepthFirst]),
         max_batch: if many_segments { *rng.pick(&[1, 2, 3]) } else { *rng.pick(&[1, 5, 50, 1000]) },
         p_flush: if many_segments { 900 } else { *rng.pick(&[0, 100, 500]) },
         p_commit: *rng.pick(&[0, 50, 300]),
         p_dup: 0,
+        }
     };
     let dd = d.clone();
-    let steps = history(model, &|v| dd.get(v), &hcfg, rng);
+    let steps = match explicit {
+        Some(st) => st,
+        None => history(model, &|v| dd.get(v), &hcfg, rng),
+    };
     let none = Bits::new(model.len());
     let out = run_history(&mut rep, model, &steps, &none, &RunCfg { check_every_commit: false, check_blocks: false }, obs);
     if out.aborted || out.committed != *d {
         return None;
     }
     Some(Rep { rep, set: d.clone() })
+}
+
+/// Overlaps and layouts aimed at the responder's coverage bookkeeping: a requester whose
+/// storage has few, long segments (tiny sample) and whose newest known-to-both command sits
+/// on a branch that forks from the middle of a responder segment, or inside a long trunk
+/// segment with many branches forking below it. Returns (down-set, few-segments layout) for
+/// requester and responder.
+fn directed_sets(model: &Model, kind: u64, rng: &mut Rng) -> Option<[(Bits, bool, Option<Vec<Step>>); 2]> {
+    let n = model.len();
+    let mut all = Bits::new(n);
+    for v in 0..n {
+        all.set(v);
+    }
+    let mut tips: Vec<usize> = (0..n).filter(|&v| model.children(v).is_empty()).collect();
+    tips.sort_by_key(|&v| std::cmp::Reverse(model.node(v).max_cut));
+    match kind {
+        7 => {
+            // chain 0..=l0 with a branch from its middle: tips = trunk tip and branch tip
+            let branch_tip = n - 1;
+            let first_branch = (1..n).find(|&v| matches!(model.node(v).par, Par::Single(p) if p + 1 != v))?;
+            let Par::Single(fork) = model.node(first_branch).par else { return None };
+            let trunk_tip = first_branch - 1;
+            if fork >= trunk_tip {
+                return None;
+            }
+            // holding nothing of the trunk beyond the fork point leaves the branch tip as the
+            // only recent address the responder can recognise
+            let p = if rng.chance(2, 3) { fork } else { fork + rng.urange(0, (trunk_tip - fork).min(40)) };
+            let mut a = model.ancestors(branch_tip).clone();
+            a.or(model.ancestors(p));
+            let b = if rng.chance(5, 6) {
+                all
+            } else {
+                let mut b = model.ancestors(trunk_tip).clone();
+                b.or(model.ancestors(first_branch + rng.usize(branch_tip - first_branch + 1)));
+                b
+            };
+            // the responder's trunk segment around the fork point should continue past it but
+            // end below the first branch segment: small random batches do that
+            // Half of the time lay the responder out by hand: the trunk segment around the fork
+            // point continues k commands past it, and the first branch segment is at least as long.
+            let b_is_all = (0..n).all(|v| b.get(v));
+            let steps = if b_is_all && rng.chance(3, 4) {
+                let k = rng.urange(1, 6).min(trunk_tip - fork);
+                let m = (k + rng.urange(0, 8)).min(branch_tip - first_branch + 1);
+                let cut1 = fork + k;
+                // everything below the segment around the fork point in 1-2 command segments: more
+                // than the responder's 100-segment budget per session when the fork is deep enough
+                let mut st = vec![];
+                let lo = fork.saturating_sub(rng.urange(0, 3));
+                let mut v = 0;
+                while v < lo {
+                    let e = (v + rng.urange(1, 2)).min(lo);
+                    st.push(Step::Add((v..e).collect()));
+                    st.push(Step::Commit);
+                    v = e;
+                }
+                st.push(Step::Add((lo..=cut1).collect()));
+                st.push(Step::Commit);
+                if cut1 < trunk_tip {
+                    let mid = cut1 + 1 + rng.usize(trunk_tip - cut1);
+                    st.push(Step::Add((cut1 + 1..=mid).collect()));
+                    if mid < trunk_tip {
+                        st.push(Step::Commit);
+                        st.push(Step::Add((mid + 1..=trunk_tip).collect()));
+                    }
+                    st.push(Step::Commit);
+                }
+                st.push(Step::Add((first_branch..first_branch + m).collect()));
+                st.push(Step::Commit);
+                if first_branch + m <= branch_tip {
+                    st.push(Step::Add((first_branch + m..=branch_tip).collect()));
+                    st.push(Step::Commit);
+                }
+                Some(st)
+            } else {
+                None
+            };
+            Some([(a, true, None), (b, false, steps)])
+        }
+        6 => {
+            // fan: the requester starts with the init command or somewhere on a long chain
+            let mut a = Bits::new(n);
+            a.set(0);
+            if rng.chance(1, 2) {
+                let deep = tips[0];
+                let mut v = deep;
+                for _ in 0..rng.urange(0, 60) {
+                    if let Par::Single(p) = model.node(v).par {
+                        v = p;
+                    }
+                }
+                a.or(model.ancestors(v));
+            }
+            Some([(a, true, None), (all, true, None)])
+        }
+        _ => None,
+    }
 }
 
 /// Attribute a session without progress to the known sampling/window limitation when the
@@ -149,22 +260,39 @@ fn beyond_window(model: &Model, sample: &[aranya_runtime::Address], resp_set: &B
 
 fn sync_case(cs: u64, args: &Args, m16: &mut Monitor, m17: &mut Monitor, m01: &mut Monitor, corpus: &mut Vec<Vec<u8>>) {
     let mut rng = Rng::new(cs);
-    let kind = cs % 10;
+    // kinds 10 and 11 reuse the fan / chain-with-branch shapes with directed overlaps and
+    // segment layouts (see `directed_sets`)
+    let directed = cs % 12 >= 10;
+    let kind = match cs % 12 {
+        10 => 6,
+        11 => 7,
+        k => k,
+    };
     let mut model = build_graph(&mut rng, kind, args.scale.min(100));
     let mut obs = Obs::default();
     let n_rep = if kind < 6 && rng.chance(1, 3) { rng.urange(3, 5) } else { 2 };
     let mut reps: Vec<Rep> = vec![];
+    let dsets = if directed { directed_sets(&model, kind, &mut rng) } else { None };
+    if dsets.is_some() {
+        obs.count("directed_overlap_cases", 1);
+    }
     for i in 0..n_rep {
         let how = if i == 0 { *rng.pick(&[0u64, 3, 3, 2]) } else { *rng.pick(&[1u64, 1, 3, 2]) };
-        let d = down_set(&model, &mut rng, how);
-        match make_rep(&mut model, &d, &mut rng, kind == 8, &mut obs) {
+        let (d, few, explicit) = match &dsets {
+            Some(ds) => ds[i].clone(),
+            None => (down_set(&model, &mut rng, how), false, None),
+        };
+        if explicit.is_some() {
+            obs.count("hand_laid_out_responders", 1);
+        }
+        match make_rep_with(&mut model, &d, &mut rng, kind == 8 && !few, few, explicit, &mut obs) {
             Some(r) => reps.push(r),
             None => return,
         }
     }
     // peer caches: caches[i][j] = what i knows j has
     let mut caches: Vec<Vec<PeerCache>> = (0..n_rep).map(|_| (0..n_rep).map(|_| PeerCache::new()).collect()).collect();
-    let mode_full = cs % 3 != 0;
+    let mode_full = if directed && kind == 6 { rng.chance(1, 3) } else { cs % 3 != 0 };
     let mut sessions = 0u64;
     let mut max_missing = 0usize;
     let mut overlap_kind = String::new();
@@ -608,7 +736,7 @@ fn main() {
             let mut obs = Obs::default();
             let mut rng = Rng::new(2);
             let all = down_set(&model, &mut rng, 1);
-            let mut rep = make_rep(&mut model, &all, &mut rng, false, &mut obs).unwrap();
+            let mut rep = make_rep(&mut model, &all, &mut rng, false, false, &mut obs).unwrap();
             let input = unhex(h).unwrap();
             let sid = response_header(&input).map(|x| x.1);
             c18_input(&mut m18, &input, "replay", sid, &mut rep.rep);
@@ -689,7 +817,7 @@ fn main() {
             let mut model = { let mut r = Rng::new(args.seed ^ 0x18); build_graph(&mut r, sh as u64 % 6, 100) };
             let mut obs = Obs::default();
             let all = down_set(&model, &mut rng, 1);
-            let Some(mut rep) = make_rep(&mut model, &all, &mut rng, false, &mut obs) else { return T(w) };
+            let Some(mut rep) = make_rep(&mut model, &all, &mut rng, false, false, &mut obs) else { return T(w) };
             let mut i = sh as u64;
             while i < n {
                 let base = if corpus.is_empty() { vec![] } else { corpus[rng.usize(corpus.len())].clone() };
